@@ -125,7 +125,7 @@ def compare(name, obj, model, site, feats, out):
     return True
 
 
-MUTATORS = {"append", "extend", "insert", "pop", "del", "set", "reverse", "clear"}
+MUTATORS = {"append", "extend", "insert", "pop", "del", "set", "reverse", "clear", "iter_mutate"}
 NEGATIVE = {"append_other", "append_multi", "insert_other", "insert_multi", "set_other", "set_multi",
             "extend_other", "append_array", "ctor_list_other", "ctor_list_other_first",
             "append_empty", "insert_empty", "set_empty", "ctor_list_multi", "ctor_list_empty_elem"}
@@ -222,6 +222,13 @@ def check_case(case):
 def _check_case_ops(case, name, cls, obj, model, out, fresh, feats):
 
     shadows = []          # (object, frozen expected values): copies, slices and indexed results are independent lists
+    _it = case.get("idxtype")
+
+    def IX(i):
+        """the index as handed to the OBJECT: a Python int, or (idxtype) the NumPy integer a loop over an index array yields"""
+        if _it is None or i is None or isinstance(i, bool):
+            return i
+        return getattr(np, _it)(i)
 
     def shadow(x, vals):
         shadows.append((x, [np.array(v, copy=True) for v in vals]))
@@ -239,7 +246,7 @@ def _check_case_ops(case, name, cls, obj, model, out, fresh, feats):
             except IndexError:
                 wexc = IndexError
             try:
-                r = obj[i]
+                r = obj[IX(i)]
                 gexc = None
             except Exception as e:  # noqa
                 gexc = e
@@ -258,6 +265,7 @@ def _check_case_ops(case, name, cls, obj, model, out, fresh, feats):
         elif o == "slice":
             sl = slice(op[1], op[2], op[3])
             want = model[sl]
+            sl = slice(IX(op[1]), IX(op[2]), IX(op[3]))
             feats["empty_result"] = len(want) == 0
             feats["simple"] = bool((op[1] is None or 0 <= op[1] <= len(model)) and (op[2] is not None and 0 <= op[2] <= len(model))
                                    and (op[3] is None or op[3] > 0))
@@ -299,6 +307,66 @@ def _check_case_ops(case, name, cls, obj, model, out, fresh, feats):
                 elif n_ >= 2:
                     compare(name, pairs[1][0], [model[0]], site + "/outer", feats, out)
                     compare(name, pairs[1][1], [model[1]], site + "/inner", feats, out)
+        elif o == "iter_mutate":
+            # a live iterator across a list operation: visits exactly what an iterator over the Python list visits
+            k, mut = op[1], op[2]
+            x = fresh()
+            ito, itm = iter(obj), iter(model)
+            seen_o, seen_m = [], []
+
+            def step_both():
+                try:
+                    vm = next(itm)
+                    em = None
+                except StopIteration:
+                    vm, em = None, StopIteration
+                try:
+                    vo = next(ito)
+                    eo = None
+                except StopIteration:
+                    vo, eo = None, StopIteration
+                except Exception as e:  # noqa
+                    vo, eo = None, e
+                return vm, em, vo, eo
+            ok_iter = True
+            for phase in (0, 1):
+                for _ in range(k if phase == 0 else 12):
+                    vm, em, vo, eo = step_both()
+                    if em is StopIteration and eo is StopIteration:
+                        break
+                    if (em is None) != (eo is None) or (eo is not None and eo is not StopIteration):
+                        out.append(V(site + "/visit", "iterator over the object %s where the list iterator %s (mutation %s after %d steps)" % (
+                            "raised %r" % (eo,) if eo is not None and eo is not StopIteration else ("stopped" if eo is StopIteration else "yielded a value"),
+                            "stopped" if em is StopIteration else "yielded a value", mut, k), mutation=mut, **feats))
+                        ok_iter = False
+                        break
+                    if em is None:
+                        if not compare(name, vo, [vm], site + "/element", feats, out):
+                            ok_iter = False
+                            break
+                if not ok_iter or phase == 1:
+                    break
+                try:
+                    if mut == "append":
+                        obj.append(make(name, [x])); model.append(x)
+                    elif mut == "insert0":
+                        obj.insert(0, make(name, [x])); model.insert(0, x)
+                    elif mut == "pop" and model:
+                        obj.pop(); model.pop()
+                    elif mut == "del0" and model:
+                        del obj[0]
+                        del model[0]
+                    elif mut == "clear":
+                        obj.clear(); model.clear()
+                    elif mut == "set0" and model:
+                        obj[0] = make(name, [x]); model[0] = x
+                    elif mut == "extend":
+                        obj.extend(make(name, [x, x])); model.extend([x, x])
+                except Exception as e:  # noqa
+                    out.append(V(site + "/mutation_raised", "%s while an iterator is live raised %r" % (mut, e), mutation=mut, **feats))
+                    break
+            del ito, itm
+            compare(name, obj, model, site + "/after", feats, out)
         elif o == "append":
             x = fresh()
             _mut(out, site, feats, lambda: obj.append(make(name, [x])), lambda: model.append(x))
@@ -308,7 +376,7 @@ def _check_case_ops(case, name, cls, obj, model, out, fresh, feats):
             _mut(out, site, feats, lambda: obj.extend(make(name, xs)), lambda: model.extend(xs))
         elif o == "insert":
             x = fresh()
-            _mut(out, site, feats, lambda: obj.insert(op[1], make(name, [x])), lambda: model.insert(op[1], x))
+            _mut(out, site, feats, lambda: obj.insert(IX(op[1]), make(name, [x])), lambda: model.insert(op[1], x))
         elif o == "pop":
             args = () if op[1] is None else (op[1],)
             try:
@@ -317,7 +385,7 @@ def _check_case_ops(case, name, cls, obj, model, out, fresh, feats):
             except IndexError:
                 wexc = IndexError
             try:
-                r = obj.pop(*args)
+                r = obj.pop(*[IX(a_) for a_ in args])
                 gexc = None
             except Exception as e:  # noqa
                 gexc = e
@@ -334,7 +402,7 @@ def _check_case_ops(case, name, cls, obj, model, out, fresh, feats):
             i = op[1]
 
             def d1():
-                del obj[i]
+                del obj[IX(i)]
 
             def d2():
                 del model[i]
@@ -344,7 +412,7 @@ def _check_case_ops(case, name, cls, obj, model, out, fresh, feats):
             x = fresh()
 
             def s1():
-                obj[i] = make(name, [x])
+                obj[IX(i)] = make(name, [x])
 
             def s2():
                 model[i] = x
@@ -519,6 +587,7 @@ def op_strategy():
         st.just(["clear"]),
         st.just(["ctor_list"]),
         st.just(["copy"]),
+        st.tuples(st.just("iter_mutate"), st.integers(0, 3), st.sampled_from(["append", "insert0", "pop", "del0", "clear", "set0", "extend"])).map(list),
         st.tuples(st.sampled_from(["append_other", "append_multi", "extend_other", "append_array", "ctor_list_other", "ctor_list_other_first",
                                    "append_empty", "ctor_list_multi", "ctor_list_empty_elem"])).map(list),
         st.tuples(st.sampled_from(["insert_other", "insert_multi", "set_other", "set_multi", "insert_empty", "set_empty"]), IDX).map(list),
@@ -538,12 +607,13 @@ def machine_spec():
         "del": st.tuples(st.just("del"), IDX).map(list),
         "set": st.tuples(st.just("set"), IDX).map(list),
         "reverse": st.just(["reverse"]), "clear": st.just(["clear"]), "ctor_list": st.just(["ctor_list"]), "copy": st.just(["copy"]),
+        "iter_mutate": st.tuples(st.just("iter_mutate"), st.integers(0, 3), st.sampled_from(["append", "insert0", "pop", "del0", "clear", "set0", "extend"])).map(list),
     }
     for nm in ("append_other", "append_multi", "extend_other", "append_array", "ctor_list_other", "ctor_list_other_first", "append_empty", "ctor_list_multi", "ctor_list_empty_elem"):
         rules[nm] = st.just([nm])
     for nm in ("insert_other", "insert_multi", "set_other", "set_multi", "insert_empty", "set_empty"):
         rules[nm] = st.tuples(st.just(nm), IDX).map(list)
-    init = st.fixed_dictionaries({"kind": st.just("ops"), "cls": st.sampled_from(CLASSES), "start": start_strategy()})
+    init = st.fixed_dictionaries({"kind": st.just("ops"), "cls": st.sampled_from(CLASSES), "start": start_strategy(), "idxtype": st.sampled_from(IDXTYPES)})
     return {"init": init, "key": "ops", "rules": rules}
 
 
@@ -554,9 +624,12 @@ def start_strategy():
                      st.just(("empty", 0)), st.just(("default", 1))).map(list)
 
 
+IDXTYPES = [None, None, None, "int64", "int32", "intp", "int8"]
+
+
 def history_strategy(maxlen):
     return st.fixed_dictionaries({
-        "kind": st.just("ops"),
+        "kind": st.just("ops"), "idxtype": st.sampled_from(IDXTYPES),
         "cls": st.sampled_from(CLASSES),
         "start": start_strategy(),
         "ops": st.lists(op_strategy(), min_size=1, max_size=maxlen),
@@ -584,6 +657,11 @@ def gen_indices(tier):
             for i in range(-7, 8):
                 for o in ("get", "del", "set", "pop", "insert"):
                     yield {"kind": "ops", "cls": name, "start": start, "ops": [[o, i], ["iter"]]}
+                    for it in ("int64", "int8"):          # the index as a NumPy integer (what looping over an index array yields)
+                        yield {"kind": "ops", "cls": name, "start": start, "ops": [[o, i], ["iter"]], "idxtype": it}
+            for k in range(0, 4):
+                for mut in ["append", "insert0", "pop", "del0", "clear", "set0", "extend"]:
+                    yield {"kind": "ops", "cls": name, "start": start, "ops": [["iter_mutate", k, mut], ["iter"]]}
 
 
 ALPHABET = [["nested_iter"], ["get", -1], ["get", 0], ["slice", 1, None, None], ["slice", None, -1, None], ["slice", None, None, -1],
